@@ -303,6 +303,24 @@ def clearAuth (st : St) (u : User) : St :=
   let st1 := u.auth.foldl (fun s e => invalidateHost s e.2) st
   { st1 with db := st1.db.putUser { u with auth := [] } }
 
+/-! ## `checkCapability` on the stateful dictionary -/
+
+/-- the `try:` block of `ircdb.checkCapability`: `users.getUser(hostmask)` with its caches and
+effects, then the `secure` re-check -/
+def recogniseS (st : St) (h : Str) : St × Option User :=
+  let g := getUser st h
+  (g.1, match g.2 with
+    | .ok u => if u.secure && !u.checkHostmask g.1.db.timeout g.1.now h false then none else some u
+    | .error _ => none)
+
+/-- `ircdb.checkCapability(hostmask, capability, …)` as the bot runs it: recognition through
+`UsersDictionary.getUser` (caches, duplicate removal), then the decision stages of `C03` -/
+def checkCapabilityS (st : St) (h cap : Str) (fl : Flags := {}) : St × R Bool :=
+  let r := recogniseS st h
+  (r.1, match r.2 with
+    | none => r.1.db.checkUnknown cap fl.ignoreDefaultAllow
+    | some u => r.1.db.checkKnown u cap fl)
+
 /-! ## operations: the call sequences of the User plugin / the users.conf loader on this API -/
 
 inductive Op
